@@ -36,6 +36,8 @@ pub enum Op {
     /// `current_mut()[0].solution_mut()[0] = tag`
     EditRetag(u16),
     CompRotate(u8),
+    /// the next component operation is executed inside that many (1-3) nested scopes; the stack lives outside them
+    Nest(u8),
     CompClear,
     CompDuplicate,
     CompInterleave,
@@ -63,6 +65,23 @@ fn read_stack(ps: &Populations<RealP>) -> Vec<Vec<(f64, Option<f64>)>> {
     (0..n).rev().map(|d| ps.try_peek(d).map(|p| p.iter().map(view).collect()).unwrap_or_default()).collect()
 }
 
+/// Executes `comp`, wrapped in `nest` nested scopes, on `state`.
+fn exec_nested(comp: Box<dyn Component<RealP>>, nest: u8, problem: &RealP, state: &mut State<RealP>, step: usize) -> Result<mahf::ExecResult<()>, crate::engine::Failure> {
+    let mut comp = comp;
+    for _ in 0..nest {
+        comp = mahf::components::Scope::new(vec![comp]);
+    }
+    match catch(|| comp.execute(problem, state)) {
+        Ok(r) => {
+            if state.try_borrow::<Populations<RealP>>().is_err() {
+                fail!("C04 component loses the population stack", "step {step}: after a stack component executed inside {nest} nested scope(s) the state holds no population stack");
+            }
+            Ok(r)
+        }
+        Err(p) => fail!("C04 stack component panics", "step {step}: panicked inside {nest} nested scope(s): {p}"),
+    }
+}
+
 pub struct StackCheck;
 
 const NAME: &str = "C04/stack-history";
@@ -74,6 +93,14 @@ fn probe(state: &State<RealP>, model: &[Pop], step: usize, op: &Op) -> Result<()
         let ps = state.populations();
         ensure_that!(ps.len() == h, "C04 len", "step {step} {op:?}: len() = {} but the model stack has height {h}", ps.len());
         ensure_that!(ps.is_empty() == (h == 0), "C04 is_empty", "step {step} {op:?}: is_empty() = {} at height {h}", ps.is_empty());
+        // depths far beyond any stack, up to the end of the index type, are "too shallow" as well
+        for d in [usize::MAX, usize::MAX - 1, usize::MAX / 2 + 1, 1usize << 32, 1000] {
+            match catch(|| ps.try_peek(d).is_none()) {
+                Ok(true) => {}
+                Ok(false) => fail!("C04 try_peek", "step {step} {op:?}: try_peek({d}) returned a population at height {h}"),
+                Err(p) => fail!("C04 try_peek panics", "step {step} {op:?}: try_peek({d}) panicked at height {h} instead of returning None: {p}"),
+            }
+        }
         for d in 0..h + 2 {
             let got = ps.try_peek(d).map(|p| p.iter().map(view).collect::<Vec<_>>());
             let want = if d < h { Some(model[h - 1 - d].iter().map(mview).collect::<Vec<_>>()) } else { None };
@@ -125,7 +152,7 @@ impl Check for StackCheck {
         NAME.into()
     }
     fn classes(&self) -> &'static [&'static str] {
-        &["height>=3", "rotate 2<=n<=height", "rotate n==height", "pop on empty", "component op", "edit in place", "split with tie"]
+        &["height>=3", "rotate 2<=n<=height", "rotate n==height", "pop on empty", "component op", "edit in place", "split with tie", "component executed inside nested scopes"]
     }
     fn oracle(&self, ops: &Vec<Op>) -> Outcome {
         let mut classes = 0u64;
@@ -141,10 +168,17 @@ fn run(ops: &[Op], classes: &mut u64) -> Result<(), crate::engine::Failure> {
     state.insert(Populations::<RealP>::new());
     let mut model: Vec<Pop> = Vec::new();
     probe(&state, &model, 0, &Op::TryPop)?;
+    let mut nest = 0u8;
     for (k, op) in ops.iter().enumerate() {
         let step = k + 1;
         let h = model.len();
+        // a pending `Nest` applies to the next operation only
+        let nest_now = if matches!(op, Op::Nest(_)) { 0 } else { std::mem::take(&mut nest) };
+        if nest_now > 0 && matches!(op, Op::CompRotate(_) | Op::CompClear | Op::CompDuplicate | Op::CompInterleave | Op::CompSplit) {
+            *classes |= 1 << 7;
+        }
         match op {
+            Op::Nest(k) => nest = 1 + k % 3,
             Op::Push(p) => {
                 state.populations_mut().push(p.iter().map(ind).collect());
                 model.push(p.clone());
@@ -181,20 +215,18 @@ fn run(ops: &[Op], classes: &mut u64) -> Result<(), crate::engine::Failure> {
                     if n == 0 {
                         continue; // rotate(0) is not specified
                     }
-                    let r = catch(|| Component::<RealP>::execute(&comp, &problem, &mut state));
+                    let r = exec_nested(Box::new(comp), nest_now, &problem, &mut state, step)?;
                     if n > h {
                         match r {
-                            Ok(Err(_)) => {}
-                            Ok(Ok(())) => fail!("C04 RotatePopulations too shallow accepted", "step {step}: RotatePopulations({n}) returned Ok at height {h}"),
-                            Err(p) => fail!("C04 RotatePopulations too shallow panics", "step {step}: RotatePopulations({n}) panicked at height {h}: {p}"),
+                            Err(_) => {}
+                            Ok(()) => fail!("C04 RotatePopulations too shallow accepted", "step {step}: RotatePopulations({n}) returned Ok at height {h}"),
                         }
                         probe(&state, &model, step, op)?;
                         continue;
                     }
                     match r {
-                        Ok(Ok(())) => {}
-                        Ok(Err(e)) => fail!("C04 RotatePopulations err within height", "step {step}: RotatePopulations({n}) erred at height {h}: {e}"),
-                        Err(p) => fail!("C04 rotate panics within height", "step {step}: RotatePopulations({n}) panicked at height {h}: {p}"),
+                        Ok(()) => {}
+                        Err(e) => fail!("C04 RotatePopulations err within height", "step {step}: RotatePopulations({n}) erred at height {h}: {e}"),
                     }
                 } else {
                     if n == 0 || n > h {
@@ -278,8 +310,8 @@ fn run(ops: &[Op], classes: &mut u64) -> Result<(), crate::engine::Failure> {
                     continue;
                 }
                 *classes |= 1 << 4;
-                let r = catch(|| Component::<RealP>::execute(&ClearPopulation, &problem, &mut state));
-                ensure_that!(matches!(r, Ok(Ok(()))), "C04 ClearPopulation", "step {step}: ClearPopulation failed: {r:?}");
+                let r = exec_nested(Box::new(ClearPopulation), nest_now, &problem, &mut state, step)?;
+                ensure_that!(r.is_ok(), "C04 ClearPopulation", "step {step}: ClearPopulation failed: {r:?}");
                 model[h - 1].clear();
             }
             Op::CompDuplicate => {
@@ -288,8 +320,8 @@ fn run(ops: &[Op], classes: &mut u64) -> Result<(), crate::engine::Failure> {
                     continue;
                 }
                 *classes |= 1 << 4;
-                let r = catch(|| Component::<RealP>::execute(&DuplicatePopulation, &problem, &mut state));
-                ensure_that!(matches!(r, Ok(Ok(()))), "C04 DuplicatePopulation", "step {step}: DuplicatePopulation failed: {r:?}");
+                let r = exec_nested(Box::new(DuplicatePopulation), nest_now, &problem, &mut state, step)?;
+                ensure_that!(r.is_ok(), "C04 DuplicatePopulation", "step {step}: DuplicatePopulation failed: {r:?}");
                 let top = model[h - 1].clone();
                 model[h - 1] = top.iter().flat_map(|i| [*i, *i]).collect();
             }
@@ -298,8 +330,8 @@ fn run(ops: &[Op], classes: &mut u64) -> Result<(), crate::engine::Failure> {
                     continue;
                 }
                 *classes |= 1 << 4;
-                let r = catch(|| Component::<RealP>::execute(&InterleavePopulations, &problem, &mut state));
-                ensure_that!(matches!(r, Ok(Ok(()))), "C04 InterleavePopulations", "step {step}: InterleavePopulations failed: {r:?}");
+                let r = exec_nested(Box::new(InterleavePopulations), nest_now, &problem, &mut state, step)?;
+                ensure_that!(r.is_ok(), "C04 InterleavePopulations", "step {step}: InterleavePopulations failed: {r:?}");
                 let p1 = model.pop().unwrap();
                 let p2 = model.pop().unwrap();
                 let mut out = Vec::new();
@@ -330,8 +362,8 @@ fn run(ops: &[Op], classes: &mut u64) -> Result<(), crate::engine::Failure> {
                     continue;
                 }
                 *classes |= 1 << 4;
-                let r = catch(|| Component::<RealP>::execute(&SplitPopulationByObjectiveValue, &problem, &mut state));
-                ensure_that!(matches!(r, Ok(Ok(()))), "C04 SplitPopulationByObjectiveValue", "step {step}: split failed: {r:?}");
+                let r = exec_nested(Box::new(SplitPopulationByObjectiveValue), nest_now, &problem, &mut state, step)?;
+                ensure_that!(r.is_ok(), "C04 SplitPopulationByObjectiveValue", "step {step}: split failed: {r:?}");
                 let top = model.pop().unwrap();
                 let n = top.len();
                 let ps = state.populations();
@@ -383,6 +415,7 @@ fn exhaustive_alphabet() -> Vec<Op> {
         Op::EditReverse,
         Op::CompRotate(2),
         Op::CompRotate(3),
+        Op::Nest(1),
         Op::CompDuplicate,
         Op::CompInterleave,
         Op::CompSplit,
@@ -468,6 +501,7 @@ fn op_strategy() -> impl Strategy<Value = Op> {
         1 => Just(Op::EditReverse),
         1 => (0u16..40).prop_map(Op::EditRetag),
         2 => (1u8..7).prop_map(Op::CompRotate),
+        2 => (0u8..3).prop_map(Op::Nest),
         1 => Just(Op::CompClear),
         1 => Just(Op::CompDuplicate),
         1 => Just(Op::CompInterleave),
